@@ -190,7 +190,9 @@ class Skel:
             if q in _PLUMB and len(t[2]) == 1:
                 self.walk(t[2][0], depth + 1)
                 return
-            if _is_std(q):
+            if q == "std::default::Default::default" or (not t[2] and q.rsplit("::", 1)[-1] in ("new", "default") and not _is_std(q)):
+                self.items.add("fresh()")        # a no-argument constructor and Default::default() are the same ingredient
+            elif _is_std(q):
                 self.std.add(q.rsplit("::", 1)[-1])
             else:
                 self.items.add("call:%s" % _short(q))
